@@ -121,6 +121,13 @@ class Env(object):
         self.join = et.EnumJoin(self.repo)
         self.work = os.path.join(d, "work")
         os.makedirs(self.work, exist_ok=True)
+        # private copy of the Lean driver (other checks may rebuild lean/.lake concurrently)
+        self.driver = os.path.join(d, "driver")
+        with vlib.lake_lock():
+            if os.path.exists(vlib.DRIVER):
+                shutil.copy2(vlib.DRIVER, self.driver)
+            else:
+                self.driver = None
 
     def tuple(self):
         return (self.repo, self.w2c2, self.work)
@@ -174,6 +181,7 @@ def e2e_job(job):
                 vr = v8.run(b, calls, imp, mem_hash=True, module=m)
                 break
         out["ncalls"] = len(calls)
+        out["calls_made"] = [[n.decode("latin-1"), [[t, b] for t, b in a]] for n, a in calls]
         out["v8"] = v8_dict(vr)
         out["v8_traps"] = sum(1 for r in vr.results if r[0] == "trap")
         v0 = None
@@ -189,10 +197,15 @@ def e2e_job(job):
                               "InitTables": "InitTables(" in ctext, "InitGlobals": "InitGlobals(" in ctext}
         try:
             base = None
+            rrs = []
             for (cc, copts, san) in job["builds"]:
                 rr = e2e.run_real(repo, work, w2c2, m, calls, imp, cc=cc, copts=tuple(copts), sanitize=san, translated=tr,
                                   init_dump=bool(job.get("init_dump")), keep_mem=bool(job.get("keep_mem")))
                 diffs, info = e2e.compare(rr, vr)
+                if rr.mem_bytes is not None and any(d["kind"] == "memory" for d in diffs) and rr.mem["pages"] == vr.mem["pages"]:
+                    if nan_only_diff(rr.mem_bytes, v8_mem_bytes(m, b, calls, imp, len(rr.mem_bytes))):
+                        diffs = [d for d in diffs if d["kind"] != "memory"]
+                        out["nan_only_memory_difference"] = True
                 ent = {"build": [cc, list(copts), san], "diffs": diffs, "info": info, "real": slim(rr)}
                 if rr.instantiate[0] == "build_error":
                     ent["build_error_class"] = classify_build_error(rr.instantiate[1])
@@ -211,6 +224,9 @@ def e2e_job(job):
                 out["builds"].append(ent)
                 if base is None:
                     base = rr
+                rrs.append(((cc, list(copts), san), rr))
+            if job.get("cross_build"):
+                out["cross"] = cross_build(rrs)
             if job.get("two_instances") and base is not None and base.instantiate == ("ok",):
                 out["two"] = two_instances(repo, work, w2c2, m, calls, imp, tr, base, job["builds"][0], spec)
         finally:
@@ -291,6 +307,73 @@ def two_instances(repo, work, w2c2, m, calls, imp, tr, base, build, spec):
     return {"diffs": diffs, "script_len": len(script), "order": "".join(str(s[0]) for s in script)[:80]}
 
 
+def cross_build(rrs):
+    """Pairwise (against the first runnable build) differences between builds of the same generated C."""
+    ok = [(b, r) for b, r in rrs if r.instantiate and r.instantiate[0] in ("ok", "trap") and not r.ub]
+    out = []
+    if len(ok) < 2:
+        return out
+    b0, r0 = ok[0]
+    for b, r in ok[1:]:
+        def add(field, x, y):
+            out.append({"field": field, "build_a": b0, "build_b": b, "a": x, "b": y,
+                        "cmd_a": (r0.build or [""])[-1], "cmd_b": (r.build or [""])[-1]})
+        if r.instantiate != r0.instantiate:
+            add("instantiate", r0.instantiate, r.instantiate)
+            continue
+        bad = [(k, p, q) for k, (p, q) in enumerate(zip(r0.results, r.results)) if not (p == q or e2e.same_result(p, q))]
+        if bad or len(r0.results) != len(r.results):
+            add("results", bad[:2] and [bad[0][0], bad[0][1]], bad[:2] and [bad[0][0], bad[0][2]])
+        if len(r0.host_log) != len(r.host_log) or any(x[0] != y[0] or not e2e.same_vals(x[1], y[1]) for x, y in zip(r0.host_log, r.host_log)):
+            add("host_log", len(r0.host_log), len(r.host_log))
+        if (r0.mem is None) != (r.mem is None) or (r0.mem and (r0.mem["pages"] != r.mem["pages"] or (
+                r0.mem["sha256"] != r.mem["sha256"] and not (r0.mem_bytes is not None and r.mem_bytes is not None and nan_only_diff(r0.mem_bytes, r.mem_bytes))))):
+            add("memory", r0.mem, r.mem)
+        for gi in sorted(set(r0.all_globals) | set(r.all_globals)):
+            x, y = r0.all_globals.get(gi), r.all_globals.get(gi)
+            if x is None or y is None or not e2e.same_vals([tuple(x)], [tuple(y)]):
+                add("global", [gi, x], [gi, y])
+                break
+        if r0.table != r.table:
+            add("table", r0.table, r.table)
+    return out
+
+
+def nan_only_diff(a, b):
+    """True iff byte strings a, b (same length) differ only inside f32/f64 cells (any alignment) that hold a NaN on
+    both sides (the specification leaves NaN payload/sign of arithmetic results open)."""
+    if len(a) != len(b):
+        return False
+    if a == b:
+        return True
+    n = len(a)
+    k = 0
+    import struct
+    while k < n:
+        if a[k] == b[k]:
+            k += 1
+            continue
+        ok = False
+        for width, fmt, ty in ((4, "<I", "f32"), (8, "<Q", "f64")):
+            for o in range(max(0, k - width + 1), min(k, n - width) + 1):
+                x = struct.unpack_from(fmt, a, o)[0]
+                y = struct.unpack_from(fmt, b, o)[0]
+                if e2e.is_nan(ty, x) and e2e.is_nan(ty, y):
+                    ok = True
+                    k = o + width
+                    break
+            if ok:
+                break
+        if not ok:
+            return False
+    return True
+
+
+def v8_mem_bytes(m, b, calls, imp, n):
+    v = v8.session().run(b, calls, imp, mem_hash=True, module=m, mem_dump=n)
+    return bytes.fromhex(v.mem.get("hex", "")) if v.mem else b""
+
+
 def mem_diag(m, b, calls, imp, rr):
     """First differing byte between the real memory and V8's."""
     n = len(rr.mem_bytes)
@@ -338,7 +421,7 @@ def emit_tokens_batch(env, specs, multi=False, pretty=False, driver_ok=True):
         nimp = sum(1 for im in m.imports if im.kind == "func")
         todo.append((sid, len(lines), fl, real, nimp))
         lines += ls
-    outl = vlib.DriverProc().batch(lines) if (lines and driver_ok) else []
+    outl = vlib.DriverProc(env.driver).batch(lines, timeout=3600) if (lines and driver_ok and env.driver) else []
     for sid, base, fl, real, nimp in todo:
         mm = []
         for k, li in enumerate(fl):
